@@ -216,15 +216,27 @@ def oracle(ctx, volume=1):
                 if tuple(m.shape) != tuple(sh[i] for i in keep) or not np.allclose(m.ps, ref.flatten(), atol=1e-12) \
                         or abs(m.ps.sum() - 1) > 1e-9:
                     ctx.violate("C16/marginalize/sum", f"marginal over {rem} of shape {sh} is not the sum over removed variables", rep)
+        # tuple access agrees with the serial (row-major) layout
+        for mi in itertools.product(*[range(x) for x in sh]):
+            rep = {"kind": "getitem", "shape": sh, "ps": p.tolist(), "multi": list(mi)}
+            try:
+                bad = d[tuple(mi)] != d.ps[int(np.ravel_multi_index(mi, sh))]
+            except Exception as e:  # noqa
+                bad = True
+            if bad:
+                ctx.violate("C16/getitem/layout", f"d[{mi}] of shape {sh} is not the row-major entry", rep); break
         for r in range(1, k):
             for idxs in itertools.combinations(range(k), r):
                 keep = [i for i in range(k) if i not in idxs]
                 marg = d.marginalize(list(idxs))
                 for vals in itertools.product(*[range(sh[i]) for i in idxs]):
-                    pm = marg[tuple(vals)] if len(vals) > 1 else marg[int(vals[0])]
+                    rep = {"kind": "cond", "shape": sh, "ps": p.tolist(), "idx": list(idxs), "val": list(vals)}
+                    try:
+                        pm = marg[tuple(vals)] if len(vals) > 1 else marg[int(vals[0])]
+                    except Exception as e:  # noqa
+                        ctx.violate("C16/getitem/raises", f"marginal{tuple(marg.shape)}[{vals}] raises {type(e).__name__}", rep); continue
                     if pm <= 1e-6:
                         continue
-                    rep = {"kind": "cond", "shape": sh, "ps": p.tolist(), "idx": list(idxs), "val": list(vals)}
                     try:
                         c = d.conditionalize(list(idxs), list(vals))
                     except Exception as e:  # noqa
@@ -237,9 +249,6 @@ def oracle(ctx, volume=1):
                             or abs(c.ps.sum() - 1) > 1e-9:
                         ctx.violate("C16/conditionalize/joint", f"joint != marginal x conditional for shape {sh} given {idxs}={vals}", rep)
                     # tuple access agrees with the serial layout
-                    for mi in itertools.product(*[range(x) for x in sh]):
-                        if d[tuple(mi)] != d.ps[int(np.ravel_multi_index(mi, sh))]:
-                            ctx.violate("C16/getitem/layout", f"d[{mi}] is not the row-major entry", rep); break
     ensembles(ctx, volume)
 
 
@@ -267,6 +276,17 @@ def ensembles(ctx, volume=1):
             ctx.violate("C16/ensemble/raises", f"{type(e).__name__}: {e}", rep); continue
         ctx.case(("ens", t, m1, m2), sample={"op": "ensemble", "outcomes": [m1, m2]})
         ok = tuple(e1.prob_dist.shape) == (m1,) and tuple(e2.prob_dist.shape) == (m1, m2)
+        try:
+            ok = ok and _ensemble_ok(e1, e2, K1, K2, rho, m1, m2)
+        except Exception as e:  # noqa  (indexing with the reported shape fails: layout and shape disagree)
+            ok = False
+        if not ok:
+            ctx.violate("C16/ensemble/layout", f"ensemble of {m1}- then {m2}-outcome measurement: states/probabilities not laid out as (earlier, later) "
+                        f"(reported shapes {tuple(e1.prob_dist.shape)}, {tuple(e2.prob_dist.shape)})", rep)
+
+
+def _ensemble_ok(e1, e2, K1, K2, rho, m1, m2):
+        ok = True
         for i in range(m1):
             k1 = K1[i][0]
             r1 = k1 @ rho @ k1.conj().T
@@ -280,8 +300,7 @@ def ensembles(ctx, volume=1):
                 if p2 > 1e-6:
                     ok &= np.allclose(e2.state((i, j)).to_density_matrix(), r2 / p2, atol=1e-7)
                     ok &= e2.state((i, j)) is e2.states[i * m2 + j]
-        if not ok:
-            ctx.violate("C16/ensemble/layout", f"ensemble of {m1}- then {m2}-outcome measurement: states/probabilities not laid out as (earlier, later)", rep)
+        return bool(ok)
 
 
 def search(ctx):
